@@ -401,6 +401,190 @@ Section Api.
   Qed.
 End Api.
 
+(* ================================================================== *)
+(* the protocol setter                                                  *)
+(* ================================================================== *)
+(* The standard parses "value followed by ':'"; the model appends ':' only if value does not already end with
+   one. Under the state override the scheme state returns (or fails) at the first ':' at the latest, so what
+   follows a ':' is never read. *)
+Lemma hd_skipn_app_gen (l : list N) : forall k (t : list N), (k <= length l)%nat ->
+  hd_error (skipn k (l ++ 58 :: t)) = if (k <? length l)%nat then nth_error l k else Some 58.
+Proof.
+  induction l as [|x l IH]; intros k t Hk.
+  - cbn [length] in Hk. assert (E : k = 0%nat) by lia. subst k. reflexivity.
+  - destruct k as [|k]; [reflexivity|]. cbn [length] in Hk. cbn [app skipn nth_error].
+    rewrite IH by lia. reflexivity.
+Qed.
+
+Section FirstColon.
+  Variable dta0 : list N -> option (list N).
+  Variable pre t1 t2 : list N.
+  Let ov : option SB.pstate := Some SB.SchemeStartState.
+
+  Lemma hd_skipn_app k (t : list N) : (k <= length pre)%nat ->
+    hd_error (skipn k (pre ++ 58 :: t)) = if (k <? length pre)%nat then nth_error pre k else Some 58.
+  Proof. apply hd_skipn_app_gen. Qed.
+
+  Lemma c_of_indep p : (0 <= p)%Z -> (p <= Z.of_nat (length pre))%Z ->
+    SB.c_of (SB.substring_from (pre ++ 58 :: t1) p) = SB.c_of (SB.substring_from (pre ++ 58 :: t2) p).
+  Proof.
+    intros H0 H1. unfold SB.c_of, SB.substring_from. rewrite !hd_skipn_app by lia. reflexivity.
+  Qed.
+
+  Lemma c_of_pre p x : (0 <= p)%Z -> (p <= Z.of_nat (length pre))%Z ->
+    SB.c_of (SB.substring_from (pre ++ 58 :: t1) p) = Some x -> x <> 58 -> (p < Z.of_nat (length pre))%Z.
+  Proof.
+    intros H0 H1 E Hx. unfold SB.c_of, SB.substring_from in E. rewrite hd_skipn_app in E by lia.
+    destruct (Z.to_nat p <? length pre)%nat eqn:El; [apply Nat.ltb_lt in El; lia|]. congruence.
+  Qed.
+
+  Definition in_scheme (m : SB.machine) : Prop :=
+    SB.m_state m = SB.SchemeStartState \/ SB.m_state m = SB.SchemeState.
+
+  (* one run: the same on both inputs; if it continues, the code point read was not ':' *)
+  Lemma step_indep m : in_scheme m -> (0 <= SB.m_pointer m)%Z -> (SB.m_pointer m <= Z.of_nat (length pre))%Z ->
+    SB.step dta0 None ov m (SB.substring_from (pre ++ 58 :: t1) (SB.m_pointer m)) =
+    SB.step dta0 None ov m (SB.substring_from (pre ++ 58 :: t2) (SB.m_pointer m)) /\
+    forall m', SB.step dta0 None ov m (SB.substring_from (pre ++ 58 :: t1) (SB.m_pointer m)) = SB.SCont m' ->
+      in_scheme m' /\ SB.m_pointer m' = SB.m_pointer m /\ (SB.m_pointer m < Z.of_nat (length pre))%Z.
+  Proof.
+    intros Hin H0 H1. unfold SB.step.
+    pose proof (c_of_indep (SB.m_pointer m) H0 H1) as Ec.
+    pose proof (fun x => c_of_pre (SB.m_pointer m) x H0 H1) as Hlt.
+    rewrite <- Ec.
+    destruct (SB.c_of (SB.substring_from (pre ++ 58 :: t1) (SB.m_pointer m))) as [x|] eqn:Ex.
+    - destruct Hin as [Hs|Hs]; rewrite Hs.
+      + (* scheme start *)
+        split; [reflexivity|]. unfold SB.scheme_start_state, SB.override_given, ov. cbn [is_some negb].
+        destruct (ascii_alpha x) eqn:Ea; [|intros m' Hm; discriminate Hm].
+        intros m' Hm. inversion Hm; subst m'. destruct m as [su st buf a b pw ptr].
+        cbn [SB.m_state SB.m_pointer SB.set_state SB.append_to_buffer SB.set_buffer SB.m_url SB.m_buffer
+             SB.m_atSignSeen SB.m_insideBrackets SB.m_passwordTokenSeen] in *.
+        split; [right; reflexivity|]. split; [reflexivity|]. apply (Hlt x eq_refl).
+        intros ->. discriminate Ea.
+      + (* scheme *)
+        unfold SB.scheme_state, SB.override_given, ov. cbn [is_some negb andb].
+        destruct (ascii_alphanumeric x || (x =? 43) || (x =? 45) || (x =? 46)) eqn:Ea.
+        * split; [reflexivity|]. intros m' Hm. inversion Hm; subst m'. destruct m as [su st buf a b pw ptr].
+          cbn [SB.m_state SB.m_pointer SB.set_state SB.append_to_buffer SB.set_buffer SB.m_url SB.m_buffer
+               SB.m_atSignSeen SB.m_insideBrackets SB.m_passwordTokenSeen] in *.
+          split; [right; exact Hs|]. split; [reflexivity|]. apply (Hlt x eq_refl).
+          intros ->. discriminate Ea.
+        * destruct (x =? 58).
+          -- destruct ((SU.is_special_scheme (SU.u_scheme (SB.m_url m)) && negb (SU.is_special_scheme (SB.m_buffer m))
+               || negb (SU.is_special_scheme (SU.u_scheme (SB.m_url m))) && SU.is_special_scheme (SB.m_buffer m)
+               || (SU.includes_credentials (SB.m_url m) || is_some (SU.u_port (SB.m_url m))) &&
+                  SU.cps_eqb (SB.m_buffer m) SU.sc_file
+               || SU.cps_eqb (SU.u_scheme (SB.m_url m)) SU.sc_file &&
+                  match SU.u_host (SB.m_url m) with Some h => SU.host_is_empty h | None => false end)).
+             ++ split; [reflexivity|]. intros m' Hm; discriminate Hm.
+             ++ split; [reflexivity|]. intros m' Hm; discriminate Hm.
+          -- split; [reflexivity|]. intros m' Hm; discriminate Hm.
+    - (* the EOF code point cannot be read before the ':' *)
+      exfalso. unfold SB.c_of, SB.substring_from in Ex. rewrite hd_skipn_app in Ex by lia.
+      destruct (Z.to_nat (SB.m_pointer m) <? length pre)%nat eqn:El; [|discriminate Ex].
+      apply Nat.ltb_lt in El. apply nth_error_None in Ex. lia.
+  Qed.
+
+  Lemma not_eof (t : list N) p : (p <= Z.of_nat (length pre))%Z -> SB.points_to_eof (pre ++ 58 :: t) p = false.
+  Proof.
+    intros H. unfold SB.points_to_eof, SB.input_length. rewrite app_length. cbn [length].
+    destruct (0 <=? p)%Z; [|reflexivity]. cbn [andb]. apply Z.leb_gt. lia.
+  Qed.
+
+  Theorem run_first_colon : forall fuel m, in_scheme m -> (0 <= SB.m_pointer m)%Z ->
+    (SB.m_pointer m <= Z.of_nat (length pre))%Z ->
+    SB.run_plain dta0 (pre ++ 58 :: t1) None ov fuel m = SB.run_plain dta0 (pre ++ 58 :: t2) None ov fuel m.
+  Proof.
+    induction fuel as [|fuel IH]; intros m Hin H0 H1; [reflexivity|].
+    cbn [SB.run_plain]. destruct (step_indep m Hin H0 H1) as [E Hc]. rewrite <- E.
+    destruct (SB.step dta0 None ov m (SB.substring_from (pre ++ 58 :: t1) (SB.m_pointer m))) as [m'|u|u|];
+      try reflexivity.
+    destruct (Hc m' eq_refl) as [Hin' [Hp Hlt]].
+    rewrite !not_eof by lia. apply IH.
+    - destruct m'; exact Hin'.
+    - destruct m'; cbn in *; lia.
+    - destruct m'; cbn in *; lia.
+  Qed.
+End FirstColon.
+
+Lemma split_first_58 (l : list N) : In 58 l -> exists pre t, l = pre ++ 58 :: t /\ ~ In 58 pre.
+Proof.
+  induction l as [|x l IH]; intros H; [destruct H|].
+  destruct (N.eq_dec x 58) as [->|Hx].
+  - exists [], l. split; [reflexivity|intros []].
+  - destruct H as [H|H]; [congruence|]. destruct (IH H) as [pre [t [E Hn]]].
+    exists (x :: pre), t. split; [rewrite E; reflexivity|]. intros [H1|H1]; [congruence|exact (Hn H1)].
+Qed.
+
+Lemma remove_tab_newline_app a b : SB.remove_tab_newline (a ++ b) = SB.remove_tab_newline a ++ SB.remove_tab_newline b.
+Proof. unfold SB.remove_tab_newline. apply filter_app. Qed.
+
+Lemma has_suffix1 a s : has_suffix [a] s = true -> exists s', s = s' ++ [a].
+Proof.
+  unfold has_suffix. cbn [rev app]. intros H. destruct (rev s) as [|x r] eqn:E; [discriminate H|].
+  cbn [has_prefix] in H. apply andb_prop in H. destruct H as [H _]. apply N.eqb_eq in H. subst x.
+  exists (rev r). rewrite <- (rev_involutive s), E. reflexivity.
+Qed.
+
+Section Protocol.
+  Variable idna_raw : str -> str * bool.
+  Variable c : cfg.
+  Hypothesis Hstd : std_cfg c.
+  Hypothesis Horacle : oracle_ok idna_raw c.
+  Notation dta := (dta idna_raw c).
+
+  Theorem SetProtocol_refines u su s : R u su -> file_host_ok su ->
+    setter_rel (SetProtocol idna_raw c u s) (SS.set_protocol dta su (runes s)).
+  Proof.
+    intros HR Hfh. unfold SetProtocol, SS.set_protocol.
+    assert (Hst : st_rel true None SchemeStart (-1) [] u
+                    (SB.mkM su (st_map SchemeStart) [] false false false 0)).
+    { cbn [st_rel SB.m_url SB.m_buffer]. split; [reflexivity|]. split; [reflexivity|]. split; [exact HR|].
+      split; [intros H; discriminate H|exact Hfh]. }
+    destruct (has_suffix [58] s) eqn:Esuf.
+    - (* the value ends with ':' already: the standard parses value ++ "::" up to the first ':' only *)
+      destruct (has_suffix1 58 s Esuf) as [s0 Es].
+      set (A := SB.remove_tab_newline (runes s)).
+      assert (EA : SB.remove_tab_newline (runes s ++ [58]) = A ++ [58]).
+      { rewrite remove_tab_newline_app. reflexivity. }
+      assert (HinA : In 58 A).
+      { unfold A. rewrite Es, (runes_snoc_ascii s0 58) by lia. rewrite remove_tab_newline_app.
+        apply in_or_app. right. left. reflexivity. }
+      destruct (split_first_58 A HinA) as [pre [t [EApre Hpre]]].
+      set (m0 := SB.mkM su SB.SchemeStartState [] false false false 0).
+      unfold setter_rel, SS.parse_with_override. rewrite SB.basic_url_parse_eq_plain.
+      unfold SB.basic_url_parse_plain. rewrite EA. fold m0.
+      set (F := (SB.parser_fuel (A ++ [58%N]) + fuel_of (length (decode (fst (remove_tabnl_sv false s)))))%nat).
+      pose proof (R8_override_run idna_raw c Hstd Horacle s None None u su SchemeStart F I
+                    (fun sb H => ltac:(discriminate H)) Hst ltac:(unfold F; lia)) as Hrun.
+      cbn [st_map] in Hrun. fold A m0 in Hrun.
+      assert (Eind : SB.run_plain dta A None (Some SB.SchemeStartState) F m0 =
+                     SB.run_plain dta (A ++ [58]) None (Some SB.SchemeStartState) F m0).
+      { rewrite EApre, <- app_assoc. cbn [app].
+        apply (run_first_colon dta pre t (t ++ [58]) F m0); [left; reflexivity|cbn; lia|cbn; lia]. }
+      rewrite Eind in Hrun. unfold F in Hrun. clear Eind.
+      destruct (SB.run_plain dta (A ++ [58]) None (Some SB.SchemeStartState) (SB.parser_fuel (A ++ [58])) m0)
+        as [su'|su'| |] eqn:Er; try (left; reflexivity).
+      + rewrite (spec_more_fuel dta (A ++ [58]) None (Some SB.SchemeStartState) (SB.parser_fuel (A ++ [58]))
+                   (fuel_of (length (decode (fst (remove_tabnl_sv false s))))) m0) in Hrun by (rewrite Er; discriminate).
+        rewrite Er in Hrun.
+        destruct (BasicParser idna_raw c s None (Some u) (Some SchemeStart)) as [u'|u' e|u'| |];
+          cbn [result_rel after] in *; try contradiction; right; try exact Hrun; exact (proj2 Hrun).
+      + rewrite (spec_more_fuel dta (A ++ [58]) None (Some SB.SchemeStartState) (SB.parser_fuel (A ++ [58]))
+                   (fuel_of (length (decode (fst (remove_tabnl_sv false s))))) m0) in Hrun by (rewrite Er; discriminate).
+        rewrite Er in Hrun.
+        destruct (BasicParser idna_raw c s None (Some u) (Some SchemeStart)) as [u'|u' e|u'| |];
+          cbn [result_rel after] in *; try contradiction; right; exact Hrun.
+      + rewrite (spec_more_fuel dta (A ++ [58]) None (Some SB.SchemeStartState) (SB.parser_fuel (A ++ [58]))
+                   (fuel_of (length (decode (fst (remove_tabnl_sv false s))))) m0) in Hrun by (rewrite Er; discriminate).
+        rewrite Er in Hrun.
+        destruct (BasicParser idna_raw c s None (Some u) (Some SchemeStart)); cbn [result_rel] in Hrun; contradiction.
+    - rewrite <- (runes_snoc_ascii s 58) by lia.
+      exact (override_setter idna_raw c Hstd Horacle (s ++ [58]) u su SchemeStart Hst).
+  Qed.
+End Protocol.
+
 Print Assumptions Parse_refines.
 Print Assumptions UrlParse_refines.
 Print Assumptions ParseRef_refines.
@@ -412,3 +596,4 @@ Print Assumptions SetPort_refines.
 Print Assumptions SetPathname_refines.
 Print Assumptions SetSearch_refines.
 Print Assumptions SetHash_refines.
+Print Assumptions SetProtocol_refines.
